@@ -332,6 +332,16 @@ static long __attribute__((noinline)) tuplenull_run(volatile var* slot) {
   return bad;
 }
 
+/* streams whose close reports an error (a command that exits with a status, a flush that is refused) left to the collector:
+   their finalisers run inside a sweep, between the finalisers of other objects */
+static void __attribute__((noinline)) streams_build(long n) {
+  for (long i = 0; i < n; i++) {
+    var nd = new(Node, $I(1000 + i)); (void)nd;
+    if (i % 4 == 1) { var p = new(Process, $S("exit 3"), $S("r")); (void)p; }
+    if (i % 4 == 3) { var f = new(File, $S("/dev/full"), $S("wb")); char b = 'x'; swrite(f, &b, 1); }
+  }
+}
+
 static int kind_of(const char* s) { for (int k = 1; k <= K_TREEK; k++) if (!strcmp(s, KN[k])) return k; return 0; }
 
 static int wfd = 1;
@@ -542,6 +552,13 @@ static int __attribute__((noinline)) real_main(int argc, char** argv) {
       for (long i = 0; i < n; i++) if (fin_count[1000 + i] > 1) twice++;
       ev_begin("bulk"); ev_int("n", n); ev_int("rooted", 0); ev_int("lost", 0); ev_int("twice", twice); ev_int("stale", gone2 == 0 ? 1 : 0); ev_int("gone", gone2);
       ev_str("raised", first); ev_str("exc", hc_exc); ev_int("line", cur_line); ev_end();
+    } else if (hc_is(0, "streams")) {
+      long n = (long)hc_int(1); if (n > 200) n = 200;
+      bulkn = n;
+      HC_TRY(streams_build(n); scrub(); do_collect(0); do_collect(1); do_collect(0));
+      long twice = 0, gone = 0; for (long i = 0; i < n; i++) { if (fin_count[1000 + i] > 1) twice++; if (fin_count[1000 + i] == 1) gone++; }
+      ev_begin("bulk"); ev_int("n", n); ev_int("rooted", 0); ev_int("lost", 0); ev_int("twice", twice); ev_int("stale", 0); ev_int("gone", gone);
+      ev_str("exc", hc_exc); ev_int("line", cur_line); ev_end();
     } else if (hc_is(0, "tuplenull")) {
       volatile long bad = -1; bulkn = 2;
       HC_TRY(bad = tuplenull_run(&ROOTSLOT(30)); scrub(); do_collect(0));
